@@ -24,6 +24,8 @@ namespace Tea.Runtime.Life
 
 deriving instance Hashable for Cause
 deriving instance Hashable for ErrClass
+deriving instance Hashable for RelPhase
+deriving instance Hashable for ResPhase
 deriving instance Hashable for ElPc
 deriving instance Hashable for SigPc
 deriving instance Hashable for HPc
